@@ -713,6 +713,42 @@ func c03R8(c *Ctx, r *Report) {
 		r.Check(related, rule, ce.Name(), "`a ?? b`: b checked against the payload type of a", c.pos(cc.Pos()),
 			"the default of `??` is checked without an expected type: `o ?? x` with o: i32? and x: i64 is accepted and the value is silently narrowed (5000000000 becomes 705032704); `o ?? 5` with o: str? is accepted")
 	}
+	// map index: index type -> key type, implicit conversions only
+	if cie := c.LookupFn(pkgTC, "checkIndexExpr"); r.Anchor(rule, cie != nil, "typechecker.checkIndexExpr") {
+		ctc := c.LookupFn(pkgTC, "checkTypeCompatibility")
+		iinfo := cie.Info()
+		idxParam := cie.ParamNamed("indexType")
+		okDir, okSet := false, false
+		ast.Inspect(cie.Decl.Body, func(x ast.Node) bool {
+			ifs, isIf := x.(*ast.IfStmt)
+			if !isIf {
+				return true
+			}
+			var call *ast.CallExpr
+			ast.Inspect(ifs, func(y ast.Node) bool {
+				if cl, ok := y.(*ast.CallExpr); ok && ctc != nil && isCallTo(iinfo, cl, ctc.Obj) && call == nil {
+					call = cl
+				}
+				return true
+			})
+			if call == nil || len(call.Args) != 2 {
+				return true
+			}
+			if !(strings.HasSuffix(exprStr(call.Args[0]), ".Key") || strings.HasSuffix(exprStr(call.Args[1]), ".Key")) {
+				return true
+			}
+			if idxParam != nil && objOf(iinfo, call.Args[0]) == idxParam && strings.HasSuffix(exprStr(call.Args[1]), ".Key") {
+				okDir = true
+			}
+			cs := exprStr(ifs.Cond)
+			if strings.Contains(cs, "ImplicitCastable") && !strings.Contains(cs, "ExplicitCastable") {
+				okSet = true
+			}
+			return true
+		})
+		r.Check(okDir && okSet, rule, cie.Name(), "map index converts to the key type implicitly", c.pos(cie.Decl.Pos()),
+			fmt.Sprintf("the index of a map is related to the key type in the right direction=%v, restricted to identical/implicit=%v: otherwise `m[k]` with m: map[i32]V and k: i64 is accepted and k is silently narrowed", okDir, okSet))
+	}
 	if cc := clause("RangeExpr"); r.Anchor(rule, cc != nil, "checkExpr: case *ast.RangeExpr") {
 		// an Error report under a condition that contains a negated Equals call
 		ok := false
@@ -736,5 +772,207 @@ func c03R8(c *Ctx, r *Report) {
 		}
 		r.Check(ok, rule, ce.Name(), "`a..b:c`: bound types compared, mismatch reported", c.pos(cc.Pos()),
 			"the bounds of a range are not related to each other: `for i in s..e` with s: i32 = -2 and e: u64 converts -2 to 2^64-2 without a cast and the loop never runs")
+	}
+}
+
+func init() {
+	lateInits = append(lateInits, func() {
+		props["C03"].Quick = append(props["C03"].Quick, c03R9)
+		props["C03"].Explanation += " (R9) every unary operator the parser can build has an operand rule in checkExpr (an error report in the branch for that operator)."
+	})
+}
+
+// C03.R9: unary operators have operand rules.
+func c03R9(c *Ctx, r *Report) {
+	const rule = "C03.R9"
+	r.Describe(rule, "checkExpr, case UnaryExpr: every operator token for which the parser builds a UnaryExpr is named in the case, and the branch for it can report an error")
+	ce := c.LookupFn(pkgTC, "checkExpr")
+	bagAdd := c.LookupFn("internal/diagnostics", "(*DiagnosticBag).Add")
+	if !r.Anchor(rule, ce != nil && bagAdd != nil, "typechecker.checkExpr / DiagnosticBag.Add") {
+		return
+	}
+	// operators: tokens matched by parser functions that build ast.UnaryExpr
+	ops := map[string]bool{}
+	for _, pf := range c.AllFns("internal/frontend/parser") {
+		builds := false
+		ast.Inspect(pf.Decl.Body, func(n ast.Node) bool {
+			if cl, ok := n.(*ast.CompositeLit); ok {
+				if nt := namedOf(pf.Info().TypeOf(cl)); nt != nil && nt.Obj().Name() == "UnaryExpr" {
+					builds = true
+				}
+			}
+			return true
+		})
+		if !builds {
+			continue
+		}
+		for _, call := range callsIn(pf.Decl.Body, false) {
+			if f := callee(pf.Info(), call); f != nil && f.Name() == "match" {
+				for _, a := range call.Args {
+					if o := constObj(pf.Info(), a); o != nil && strings.HasSuffix(o.Name(), "_TOKEN") {
+						ops[o.Name()] = true
+					}
+				}
+			}
+		}
+	}
+	r.Floor(rule, len(ops), 3, "unary operator tokens built by the parser")
+	info := ce.Info()
+	var clause *ast.CaseClause
+	ast.Inspect(ce.Decl.Body, func(x ast.Node) bool {
+		if cc, ok := x.(*ast.CaseClause); ok && clause == nil {
+			for _, t := range caseTypes(info, cc) {
+				if nt := namedOf(t); nt != nil && nt.Obj().Name() == "UnaryExpr" {
+					clause = cc
+				}
+			}
+		}
+		return true
+	})
+	if !r.Anchor(rule, clause != nil, "checkExpr: case *ast.UnaryExpr") {
+		return
+	}
+	// token -> can a report be reached in a region that names the token?
+	reports := map[string]bool{}
+	named := map[string]bool{}
+	var visit func(n ast.Node)
+	visit = func(n ast.Node) {
+		ast.Inspect(n, func(x ast.Node) bool {
+			switch y := x.(type) {
+			case *ast.CaseClause:
+				for _, e := range y.List {
+					if o := constObj(info, e); o != nil {
+						named[o.Name()] = true
+						for _, st := range y.Body {
+							if nodeCallsDeep(info, st, bagAdd.Obj) || callsReporter(c, info, st, bagAdd.Obj) {
+								reports[o.Name()] = true
+							}
+						}
+					}
+				}
+			case *ast.IfStmt:
+				for _, d := range disjuncts(y.Cond) {
+					if be, ok := isBinOp(d, token.EQL); ok {
+						if o := constObj(info, be.Y); o != nil && strings.HasSuffix(o.Name(), "_TOKEN") {
+							named[o.Name()] = true
+							if nodeCallsDeep(info, y.Body, bagAdd.Obj) || callsReporter(c, info, y.Body, bagAdd.Obj) {
+								reports[o.Name()] = true
+							}
+						}
+					}
+				}
+			}
+			return true
+		})
+	}
+	for _, st := range clause.Body {
+		visit(st)
+	}
+	reviewed := map[string]string{
+		"PLUS_PLUS_TOKEN":   "built as PrefixExpr by the same parser function; operand rule in checkIncDecTarget (C06.R1)",
+		"MINUS_MINUS_TOKEN": "built as PrefixExpr by the same parser function; operand rule in checkIncDecTarget (C06.R1)",
+	}
+	for _, op := range sortedKeys(ops) {
+		if why, ok := reviewed[op]; ok {
+			r.OK(rule, ce.Name(), "unary "+op+" (reviewed: "+why+")", c.pos(clause.Pos()), "reviewed exception")
+			continue
+		}
+		r.Check(named[op] && reports[op], rule, ce.Name(), "unary "+op+" has an operand rule", c.pos(clause.Pos()),
+			fmt.Sprintf("the unary operator %s is accepted with any operand (named in the case: %v, can report: %v): `let b := !n` with n: i32 compiles, `-flag` on a bool compiles", op, named[op], reports[op]))
+	}
+}
+
+func nodeCallsDeep(info *types.Info, n ast.Node, f *types.Func) bool {
+	found := false
+	ast.Inspect(n, func(x ast.Node) bool {
+		if cl, ok := x.(*ast.CallExpr); ok && isCallTo(info, cl, f) {
+			found = true
+		}
+		return !found
+	})
+	return found
+}
+
+// callsReporter: n calls a function of the module that itself reports (one level), e.g. checkBorrowExpr.
+func callsReporter(c *Ctx, info *types.Info, n ast.Node, bagAdd *types.Func) bool {
+	found := false
+	ast.Inspect(n, func(x ast.Node) bool {
+		if cl, ok := x.(*ast.CallExpr); ok {
+			if hf := c.FnOf(callee(info, cl)); hf != nil && hf.Decl.Body != nil && nodeCallsDeep(hf.Info(), hf.Decl.Body, bagAdd) {
+				found = true
+			}
+		}
+		return !found
+	})
+	return found
+}
+
+func init() {
+	lateInits = append(lateInits, func() {
+		props["C01"].Quick = append(props["C01"].Quick, c01R8)
+		props["C01"].Explanation += " (R8) scalar by-value parameters are given an entry-block slot before the body is lowered, and identifier reads / address-of consult that slot before the incoming SSA value."
+	})
+}
+
+// C01.R8: parameters are variables from the first statement on.
+func c01R8(c *Ctx, r *Report) {
+	const rule = "C01.R8"
+	r.Describe(rule, "mir/gen: buildFuncBody spills scalar by-value parameters (emitAllocaInEntry + emitStoreInEntry) before lowerBlock; loadIdent and addrForIdent look the parameter slot up before falling back to the incoming value")
+	bfb := c.LookupFn(pkgMIRGen, "(*functionBuilder).buildFuncBody")
+	allocE := c.LookupFn(pkgMIRGen, "(*functionBuilder).emitAllocaInEntry")
+	storeE := c.LookupFn(pkgMIRGen, "(*functionBuilder).emitStoreInEntry")
+	lowerBlock := c.LookupFn(pkgMIRGen, "(*functionBuilder).lowerBlock")
+	if !r.Anchor(rule, bfb != nil && allocE != nil && storeE != nil && lowerBlock != nil, "mir/gen buildFuncBody / emitAllocaInEntry / emitStoreInEntry / lowerBlock") {
+		return
+	}
+	info := bfb.Info()
+	// the spill loop: a range over the parameters whose body allocates and stores in the entry block
+	spillLoop := false
+	var loop *ast.RangeStmt
+	ast.Inspect(bfb.Decl.Body, func(x ast.Node) bool {
+		if rs, ok := x.(*ast.RangeStmt); ok && strings.HasSuffix(exprStr(rs.X), ".Params") {
+			if nodeCallsDeep(info, rs.Body, allocE.Obj) && nodeCallsDeep(info, rs.Body, storeE.Obj) {
+				spillLoop = true
+				loop = rs
+			}
+		}
+		return true
+	})
+	r.Check(spillLoop, rule, bfb.Name(), "parameters spilled to entry-block slots", c.pos(bfb.Decl.Pos()),
+		"by-value parameters are spilled lazily at their first assignment: reads lowered before that point (the condition of an enclosing loop) keep using the incoming value, so `while n > 0 { …; n = n - 1; }` on a parameter n never sees n change")
+	if loop != nil {
+		// … and the loop comes before the body is lowered
+		var lb *ast.CallExpr
+		for _, cl := range callsIn(bfb.Decl.Body, false) {
+			if isCallTo(info, cl, lowerBlock.Obj) {
+				lb = cl
+			}
+		}
+		r.Check(lb != nil && loop.End() < lb.Pos(), rule, bfb.Name(), "spill precedes lowerBlock(body)", c.pos(loop.Pos()), "the parameter slots are created after the body has been lowered")
+	}
+	for _, name := range []string{"loadIdent", "addrForIdent"} {
+		fn := c.LookupFn(pkgMIRGen, "(*functionBuilder)."+name)
+		if !r.Anchor(rule, fn != nil, "mir/gen "+name) {
+			continue
+		}
+		// first use of paramSlots must come before the first use of paramsByName
+		firstSlots, firstByName := token.NoPos, token.NoPos
+		ast.Inspect(fn.Decl.Body, func(x ast.Node) bool {
+			if sel, ok := x.(*ast.SelectorExpr); ok {
+				switch sel.Sel.Name {
+				case "paramSlots":
+					if firstSlots == token.NoPos {
+						firstSlots = sel.Pos()
+					}
+				case "paramsByName":
+					if firstByName == token.NoPos {
+						firstByName = sel.Pos()
+					}
+				}
+			}
+			return true
+		})
+		r.Check(firstSlots != token.NoPos && (firstByName == token.NoPos || firstSlots < firstByName), rule, fn.Name(), "parameter slot consulted before the incoming value", c.pos(fn.Decl.Pos()),
+			"identifier lowering returns the incoming SSA value of a parameter although the parameter has storage: writes to it are not seen by this read")
 	}
 }
